@@ -218,10 +218,21 @@ def run_parts(parts: List[Part], jobs: Optional[int] = None, progress=None) -> L
             if progress:
                 progress(results[i])
         return results  # type: ignore
+    import concurrent.futures as cf
+
     ctx = mp.get_context("spawn")
-    with ctx.Pool(jobs, initializer=_worker_init, maxtasksperchild=200) as pool:
-        it = pool.imap_unordered(_indexed, [(i, parts[i]) for i in order], chunksize=1)
-        for i, r in it:
+    # ProcessPoolExecutor (not mp.Pool): a worker that dies (OOM, crash in a C extension) raises
+    # BrokenProcessPool instead of hanging the run; the partitions it took with it are reported as errors.
+    with cf.ProcessPoolExecutor(jobs, mp_context=ctx, initializer=_worker_init) as ex:
+        futs = {ex.submit(_indexed, (i, parts[i])): i for i in order}
+        for fut in cf.as_completed(futs):
+            i = futs[fut]
+            try:
+                _, r = fut.result()
+            except BaseException as e:  # noqa
+                p = parts[i]
+                r = PartResult(name=p.name or p.harness, harness=p.harness, params=p.params, kind=p.kind, group=p.group,
+                               status="error", message="worker failed: %s: %s" % (type(e).__name__, e))
             results[i] = r
             if progress:
                 progress(r)
